@@ -74,6 +74,7 @@ def run(tier, seed):
     # a checkpoint written at step k and read back, into a new project and into the very object that wrote it, before the run goes on
     extra += [(sp, dict(o, resume_from=k, resume_via_json=how)) for sp, o in its[:: (17 if tier == "quick" else 5)] for k in (1, 2) for how in (True, "same")]
     col.merge(stepcheck.explore(extra, MONS, 0, 0, seed=seed))
+    col.merge(stepcheck.explore(F.scale_items(("TSLACK", "LPT", "FIFO")), MONS, 0, 0, seed=seed))  # medium-sized models (10-14 tasks / workers / machines), long absence lists
     meta = {
         "level": "model_checking",
         "rule": "every 3-task workflow over the four dependency kinds x work vectors and 4 parallel tasks x pooled/solo/mixed/dedicated/two-team layouts x task rules, "
